@@ -295,10 +295,14 @@ def check(fx, rep, tier):
     rep.rule('R09.2c', 'a call answered without failure and without stream hand-over removes nothing')
     rep.rule('R09.3', 'the laundered `&mut Vec<Connection>` handed to the select does not outlive the iteration, and the list is not structurally modified while it is in use')
     rep.rule('R09.4', 'the receive path cannot index out of bounds on client-controlled lengths (R01.4)')
+    rep.rule('R09.6', 'the receive path keeps its buffer and cursor invariants across cancellation (R07.1-R07.3 of C07)')
     rep.rule('R09.5', 'no unwrap / expect / panic call of zlink code inside the server loop')
     for cfg in ['full'] + (['ws'] if tier == 'thorough' else []):
         crate = fx.crate('zlink_core', cfg)
         check_cfg(fx, rep, crate, cfg)
         check_laundering(fx, rep, crate, cfg)
         import_receive_index_safety(fx, rep, crate, cfg)
+    import imports
+    imports.cancel_safety(fx, rep, 'R09.6', 'the server loop cancels the pending receive of every other connection on each iteration: a receive path that breaks its cursor / buffer '
+                          'invariants across a cancellation panics or stalls inside Server::run and takes every connection down')
     return META
